@@ -67,7 +67,7 @@ func (a *verifApp) FromApp(m *Message, _ SessionID) MessageRejectError {
 		a.fromAppOutsideLogon++
 	}
 	if a.appMayReject {
-		switch verifConc(ndInt("fromapp-verdict", 0, 2)) {
+		switch verifConc(ndInt("fromapp-verdict", 0, 1+verifTier())) {
 		case 1:
 			return ValueIsIncorrect(Tag(58))
 		case 2:
